@@ -565,7 +565,7 @@ SCOPES = {
            r"try_map|try_map_with|unwrapped|validate|boxed|from_str|padded)$|^primitive::(any|any_ref|choice|custom|empty|end|group|just|none_of|one_of|select|select_ref)$",
     "C02": r"^Parser::(repeated|separated_by|foldl|foldl_with|into_iter)$|^IterParser::|^combinator::(Repeated|SeparatedBy|RepeatedCfg)::|^combinator::\w+Cfg\[std::default::Default\]::default$",
     "C03": r"^Parser::lazy$",
-    "C07": r"^Parser::(to_slice|to_span|map_with)$|^input::Input::",
+    "C07": r"^Parser::(to_slice|to_span|map_with)$|^input::Input::|^regex::regex$",   # regex(): a byte-mode pattern on &str ends a match inside a character
     "C08": r"^recovery::|^Parser::recover_with$",
     "C09": r"^pratt::|^Parser::pratt$",
     "C10": r"^input::Input::|^input::IoInput::|^stream::",
